@@ -209,10 +209,62 @@ class Result:
         return dict(self.__dict__)
 
 
+def expand_chunk(drv: Driver, model, chunk, max_violations=3):
+    """Expands every state of `chunk` (list of (idx, hw, ref)) with every valuation.  Returns
+    (new: list of (key, parent idx, inp) de-duplicated inside the chunk in discovery order,
+     transitions, violating, violations, obs_set)."""
+    new = {}
+    order = []
+    transitions = 0
+    violating = 0
+    violations = []
+    obs_seen = set()
+    for idx, hw, ref in chunk:
+        for inp in model.alphabet(ref):
+            drv.restore(hw)
+            obs = drv.apply(inp)
+            viols, nref = model.step(ref, inp, obs)
+            transitions += 1
+            obs_seen.add(obs)
+            if viols:
+                violating += 1
+                if len(violations) < max_violations:
+                    violations.append({"state_index": idx, "input": inp, "obs": obs, "clauses": list(viols)})
+                continue
+            key = (drv.clock(), nref)
+            if key not in new:
+                new[key] = None
+                order.append((key, idx, inp))
+    return order, transitions, violating, violations, obs_seen
+
+
+_W = {}
+
+
+def _winit(module, cls, cfg):
+    import importlib
+    H = getattr(importlib.import_module(module), cls)
+    h = H(**cfg)
+    _W["h"] = h
+    _W["drv"] = h.build(comb_check=False)
+
+
+def _wlevel(chunk):
+    h = _W["h"]
+    before = dict(h.counters)
+    out = expand_chunk(_W["drv"], h, chunk)
+    delta = {k: v - before.get(k, 0) for k, v in h.counters.items() if v != before.get(k, 0)}
+    return out + (delta,)
+
+
 def explore(drv: Driver, model, *, max_states=None, max_depth=None, max_violations=3,
-            replay_cap=64, keep_obs=True):
-    """BFS over (hardware state, reference state) with every valuation of model.alphabet(ref)
-    tried in every state.  Deterministic; first violation reported is a shortest one."""
+            replay_cap=64, parallel=None):
+    """Level-synchronous BFS over (hardware state, reference state) with every valuation of
+    model.alphabet(ref) tried in every state.  Deterministic (state numbering and the first
+    violation do not depend on the number of workers); the first violation is a shortest one.
+
+    parallel = (nproc, module, cls, cfg): the frontier of each level is split among nproc worker
+    processes, each owning its own simulator of the same design."""
     res = Result()
     hw0 = drv.reset()
     ref0 = model.init()
@@ -220,56 +272,64 @@ def explore(drv: Driver, model, *, max_states=None, max_depth=None, max_violatio
     keys = [(hw0, ref0)]
     parent = [(-1, None)]
     depth = [0]
-    frontier = deque([0])
     obs_seen = set()
     has_child = set()
-    cut_depth = None
-    while frontier:
-        idx = frontier.popleft()
-        hw, ref = keys[idx]
-        d = depth[idx]
-        if max_depth is not None and d >= max_depth:
-            res.exhaustive = False
-            if "max_depth" not in res.caps_hit:
+    level = [0]
+    d = 0
+    pool = None
+    if parallel is not None:
+        import multiprocessing as mp
+        nproc, module, cls, cfg = parallel
+        pool = mp.get_context("fork").Pool(nproc, initializer=_winit, initargs=(module, cls, cfg))
+    try:
+        while level:
+            if max_depth is not None and d >= max_depth:
+                res.exhaustive = False
                 res.caps_hit.append("max_depth")
-            continue
-        if max_states is not None and len(keys) >= max_states:
-            res.exhaustive = False
-            if "max_states" not in res.caps_hit:
+                break
+            if max_states is not None and len(keys) >= max_states:
+                res.exhaustive = False
                 res.caps_hit.append("max_states")
-            if cut_depth is None:
-                cut_depth = d
-            continue
-        for inp in model.alphabet(ref):
-            drv.restore(hw)
-            obs = drv.apply(inp)
-            viols, nref = model.step(ref, inp, obs)
-            res.transitions += 1
-            if keep_obs:
-                obs_seen.add(obs)
-            if viols:
-                res.violating_transitions += 1
-                if len(res.violations) < max_violations:
-                    res.violations.append({"state_index": idx, "input": inp, "obs": obs, "clauses": list(viols)})
-                continue
-            nhw = drv.clock()
-            key = (nhw, nref)
-            j = seen.get(key)
-            if j is None:
-                j = len(keys)
-                seen[key] = j
-                keys.append(key)
-                parent.append((idx, inp))
-                depth.append(d + 1)
-                frontier.append(j)
-                has_child.add(idx)
+                break
+            items = [(i, keys[i][0], keys[i][1]) for i in level]
+            if pool is not None and len(items) >= 8:
+                nchunks = min(len(items), nproc * 4)
+                size = (len(items) + nchunks - 1) // nchunks
+                chunks = [items[k:k + size] for k in range(0, len(items), size)]
+                outs = pool.map(_wlevel, chunks)
+                for o in outs:
+                    for k, v in o[5].items():
+                        model.counters[k] = model.counters.get(k, 0) + v
+            else:
+                outs = [expand_chunk(drv, model, items, max_violations)]
+            nxt = []
+            for o in outs:
+                order, tr, vio, viols, obs = o[:5]
+                res.transitions += tr
+                res.violating_transitions += vio
+                obs_seen |= obs
+                for v in viols:
+                    if len(res.violations) < max_violations:
+                        res.violations.append(v)
+                for key, pidx, inp in order:
+                    if key not in seen:
+                        j = len(keys)
+                        seen[key] = j
+                        keys.append(key)
+                        parent.append((pidx, inp))
+                        depth.append(d + 1)
+                        nxt.append(j)
+                        has_child.add(pidx)
+            level = nxt
+            d += 1
+    finally:
+        if pool is not None:
+            pool.terminate()
+            pool.join()
     res.states = len(keys)
     res.max_depth_seen = max(depth)
     res.distinct_obs = len(obs_seen)
-    if res.exhaustive:
-        res.depth_completed = res.max_depth_seen
-    else:
-        res.depth_completed = (cut_depth if cut_depth is not None else max_depth)
+    res.depth_completed = d if not res.exhaustive else res.max_depth_seen
 
     def path_to(i):
         p = []
@@ -289,6 +349,7 @@ def explore(drv: Driver, model, *, max_states=None, max_depth=None, max_violatio
     if len(leaves) > replay_cap:
         step = len(leaves) / replay_cap
         leaves = [leaves[int(k * step)] for k in range(replay_cap)]
+    saved = dict(model.counters) if hasattr(model, "counters") else None
     for i in leaves:
         p = path_to(i)
         obs_list, final = drv.public_replay(p)
@@ -304,6 +365,9 @@ def explore(drv: Driver, model, *, max_states=None, max_depth=None, max_violatio
         if ref != keys[i][1]:
             raise HarnessError("reference state diverged on replay")
         res.replayed += 1
+    if saved is not None:
+        model.counters.clear()
+        model.counters.update(saved)
     if leaves:
         res.sample_paths = [path_to(leaves[0]), path_to(leaves[-1])]
     return res
